@@ -1120,6 +1120,7 @@ func runC04(r *Run) {
 			c.Nontrivial = x.n >= 2
 			c04Execute(c, r, p)
 		})
+		r.Exhaust = true
 		r.Extra["exhaustive_scope"] = fmt.Sprintf("all %d scripts: layouts of 1..3 schedule tasks over 2 hooks x allowFailure, every task failing 0..2 times", len(cfgs))
 		// the default back-off once (5 s)
 		r.One(4, func(c *Case, _ *Rng) {
